@@ -24,7 +24,7 @@ type C10 struct{}
 func (e *C10) ID() string    { return "C10" }
 func (e *C10) Level() string { return "exploration" }
 func (e *C10) Rule() string {
-	return "each case generates a marker stream SOI, S1..Sn, DQT, >=64 bytes of scan data with Si drawn from APP0-15 (JFIF, JFXX, ICC, Photoshop, XMP-extension, Exif/XMP-looking prefixes on the wrong marker, near-miss APP1 prefixes, random payloads full of 0xFF and nested SOI/EOI/APP1/DQT byte pairs), COM, DRI, SOF0-15, with 0-2 Exif APP1 and 0-2 XMP APP1 segments in every relative order and payload lengths from 0 to the 65533 maximum; the generator records marker, absolute offset and payload of every segment. ScanJPEG runs with recording callbacks implementing the consumption behaviours the property quantifies over (XMP: read nothing / a prefix / everything via io.ReadAll or odd-sized reads; Exif: exactly the declared length in seeded pieces, or the library's own DecodeJPEGIfd) over a plain reader, a small bufio.Reader (forces the pooled reader) or a 4 KiB+ bufio.Reader. Oracle: the sequence of callbacks equals the sequence of metadata segments before the first DQT; each Exif header has the byte order, first-IFD offset, absolute TIFF offset and length of that segment; the bytes readable in each callback equal the recorded payload exactly (no more, no fewer); no callback for any other segment; final error nil. Non-trivial: >=1 callback and >=2 other segments; distinct = (order pattern of Exif/XMP/other, consumption behaviours, reader kind)."
+	return "(in library mode the bytes the library's own DecodeJPEGIfd takes from its reader are counted and must equal the declared length, also for blocks that are cut short or hostile inside) each case generates a marker stream SOI, S1..Sn, DQT, >=64 bytes of scan data with Si drawn from APP0-15 (JFIF, JFXX, ICC, Photoshop, XMP-extension, Exif/XMP-looking prefixes on the wrong marker, near-miss APP1 prefixes, random payloads full of 0xFF and nested SOI/EOI/APP1/DQT byte pairs), COM, DRI, SOF0-15, with 0-2 Exif APP1 and 0-2 XMP APP1 segments in every relative order and payload lengths from 0 to the 65533 maximum; the generator records marker, absolute offset and payload of every segment. ScanJPEG runs with recording callbacks implementing the consumption behaviours the property quantifies over (XMP: read nothing / a prefix / everything via io.ReadAll or odd-sized reads; Exif: exactly the declared length in seeded pieces, or the library's own DecodeJPEGIfd) over a plain reader, a small bufio.Reader (forces the pooled reader) or a 4 KiB+ bufio.Reader. Oracle: the sequence of callbacks equals the sequence of metadata segments before the first DQT; each Exif header has the byte order, first-IFD offset, absolute TIFF offset and length of that segment; the bytes readable in each callback equal the recorded payload exactly (no more, no fewer); no callback for any other segment; final error nil. Non-trivial: >=1 callback and >=2 other segments; distinct = (order pattern of Exif/XMP/other, consumption behaviours, reader kind)."
 }
 func (e *C10) Assumptions() []string {
 	return []string{"fill bytes (FF FF) before markers and parameterless markers (RSTn, TEM) are not generated in the header area: the statement quantifies over the listed segment kinds",
@@ -91,10 +91,13 @@ func (e *C10) Run(c *core.Ctx, idx int) {
 	for i := 0; i < nExif; i++ {
 		var t []byte
 		switch r.Intn(4) {
-		case 0: // a real generated payload
+		case 0: // a real generated payload, sometimes cut short inside (the segment itself stays well-formed)
 			t, _, _ = gen.SynthPayload(r, r.Bool(), 3)
 			if len(t) > 65000 {
 				t = t[:65000]
+			}
+			if r.Chance(1, 3) && len(t) > 16 {
+				t = t[:len(t)-r.Pick(1, 2, 3, 4, 5, 8, r.Intn(len(t)-8))]
 			}
 		default: // a TIFF header followed by hostile bytes
 			n := r.Range(0, 300)
@@ -177,6 +180,12 @@ func (e *C10) Run(c *core.Ctx, idx int) {
 			pattern += "o"
 		}
 	}
+	var exifPayloads [][]byte
+	for _, sg := range want {
+		if sg.Kind == "exif" {
+			exifPayloads = append(exifPayloads, sg.Payload[6:])
+		}
+	}
 	// ---- run
 	exifMode := r.Intn(3)   // 0 exact pieces, 1 library DecodeJPEGIfd, 2 exact via ReadFull
 	xmpMode := r.Intn(4)    // 0 nothing, 1 prefix, 2 ReadAll, 3 odd-sized reads to EOF
@@ -184,12 +193,31 @@ func (e *C10) Run(c *core.Ctx, idx int) {
 	var got []c10cb
 	ir := exif2.NewIfdReader(exif2.Logger)
 	defer ir.Close()
+	exifSeen := 0
 	exifCb := func(rd io.Reader, h meta.ExifHeader) error {
 		cb := c10cb{kind: "exif", hdr: h}
+		exifIdx := exifSeen
+		exifSeen++
 		switch exifMode {
 		case 1:
-			err := ir.DecodeJPEGIfd(rd, h)
+			cr := &countingReader{r: rd}
+			err := ir.DecodeJPEGIfd(cr, h)
 			cb.note = fmt.Sprint("lib err=", err)
+			c.Rec.Count("lib_exif_reader_calls", 1)
+			if err != nil {
+				c.Rec.Count("lib_exif_reader_errors", 1)
+				// A block whose root directory lies completely inside it gives the reader no reason to
+				// abort the scan (what goes wrong in sub-directories is not fatal): an error here
+				// would hide every metadata segment that follows.
+				if exifIdx < len(exifPayloads) && rootDirInside(exifPayloads[exifIdx], h) {
+					c.Rec.Violation("jpeg:lib-exif-abort", fmt.Sprintf("the library's own Exif reader returned %v for a block whose root directory is complete; as a callback it ends the scan and the metadata segments behind it are never delivered", err), map[string]any{"error": fmt.Sprint(err), "first_ifd": h.FirstIfdOffset, "length": h.ExifLength})
+				}
+			}
+			if cr.n != int64(h.ExifLength) {
+				// the statement's proviso names the library's own reader as one that consumes its
+				// declared length, whatever the block holds
+				c.Rec.Violation("jpeg:lib-exif-consumption", fmt.Sprintf("the library's own Exif reader consumed %d of the %d bytes declared for its APP1 block (returned %v)", cr.n, h.ExifLength, err), map[string]any{"consumed": cr.n, "declared": h.ExifLength, "error": fmt.Sprint(err)})
+			}
 			got = append(got, cb)
 			return nil
 		default:
@@ -330,3 +358,32 @@ func segSummary(segs []gen.Seg) []string {
 
 // CPUBudget: a case is one scan of a stream of at most ~200 KiB; seconds of CPU mean a hang.
 func (e *C10) CPUBudget(tier string, idx int) time.Duration { return 5 * time.Second }
+
+type countingReader struct {
+	r io.Reader
+	n int64
+}
+
+func (c *countingReader) Read(p []byte) (int, error) {
+	n, err := c.r.Read(p)
+	c.n += int64(n)
+	return n, err
+}
+
+// rootDirInside reports whether the first directory of the TIFF block (entry count, entries
+// and the next-directory pointer) lies inside the block, with a count the reader accepts.
+func rootDirInside(tiff []byte, h meta.ExifHeader) bool {
+	if len(tiff) != int(h.ExifLength) || len(tiff) < 8 {
+		return false
+	}
+	var o binary.ByteOrder = binary.LittleEndian
+	if tiff[0] == 'M' {
+		o = binary.BigEndian
+	}
+	off := int(o.Uint32(tiff[4:]))
+	if off < 8 || off+2 > len(tiff) {
+		return false
+	}
+	n := int(o.Uint16(tiff[off:]))
+	return n >= 1 && n <= 128 && off+2+12*n+4 <= len(tiff)
+}
